@@ -1173,21 +1173,23 @@ func main() {
 		Rule: "each case is a TRUE datastore history of 60-100 (thorough 120-160) consistency-preserving mutations over 4 disjoint pools (none/ipip/vxlan x always/cross-subnet, LB-only), 5 nodes incl. the local one " +
 			"(addresses in/out of the local subnet, VXLAN/IPIP tunnel addresses in/out of blocks and pools), 10 disjoint blocks (a /32 block, a block equal to a pool, a block in no pool; affinity changes and releases; affine, borrowed, ownerless allocations) " +
 			"and 3 local workloads; IPAM records precede use and outlive it. Felix's view of it is built twice independently: per resource kind a snapshot at a random point followed by the remaining events in order, kinds interleaved at random, random flush points, optional resync; " +
-			"a third run delivers the final state alone. non-trivial = the final state has a pool and at least one remote block or borrowed address; distinct by the two delivered histories",
+			"a third run delivers the final state alone. Every emitted message also goes to the real vxlan/ipip/noencap managers (shared recording route table, CompleteDeferredWork at every flush) whose final SetRoutes state is judged. non-trivial = the final state has a pool and at least one remote block or borrowed address; distinct by the two delivered histories",
 		Assumptions: []string{
 			"IPv4 only; CalicoIPAM route source; node resources are expanded by the real FelixNodeUpdateProcessor; pools/blocks/endpoints are delivered as the v1 model types Felix's syncer produces",
 			"the datastore's own invariants hold in the true history: pools disjoint, blocks disjoint, node addresses unique at every instant, addresses in use are recorded in their IPAM block with the node attribute",
 			"one watch per resource kind: per-kind event order is preserved, cross-kind order is arbitrary",
-			"single goroutine; no race detector (the final binary is CGO-off because of part 2)",
+			"single goroutine; no race detector (CGO-off binary: felix/dataplane/linux needs the libbpf stub)",
+			"part 2 fakes: a recording routetable.Interface (last SetRoutes per class+interface wins), a netlink shim that answers LinkList/AddrList with one NIC eth0 carrying every host address of the universe, a no-op VXLAN FDB, the repo's MockIPSets; tunnel device sync goroutines are not started",
 		},
 		Cases: func(tier string) int {
 			if tier == "thorough" {
-				return 20000
+				return 15000
 			}
-			return 800
+			return 600
 		},
 		Run: run,
 		Floors: map[string]int64{"updates_delivered": 3000, "route_updates_seen": 3000, "route_removes_seen": 300, "remote_targets_checked": 800,
-			"same_subnet_targets": 30, "borrowed_targets": 100, "local_blocks_checked": 100, "local_weps_checked": 50, "order_comparisons": 2000},
+			"same_subnet_targets": 30, "borrowed_targets": 100, "local_blocks_checked": 100, "local_weps_checked": 50, "order_comparisons": 2000,
+			"dataplane_msgs": 10000, "setroutes_calls": 5000, "p2_direct_targets": 100, "p2_tunnel_targets": 100, "p2_local_blocks": 150, "p2_programmed_routes_checked": 500},
 	})
 }
